@@ -38,7 +38,13 @@ def servable_paths(t, rng):
 
 
 def build(method, path, hs):
-    h = "".join("%s: %s\r\n" % kv for kv in [("Host", "localhost")] + hs)
+    # the Host header is the client's business: for every third path it is the authority of the request's own Origin
+    import zlib
+    host = "localhost"
+    org = next((v for k, v in hs if k.lower() == "origin"), None)
+    if org and "://" in org and zlib.crc32(path.encode("utf-8")) % 3 == 0:
+        host = org.split("://", 1)[1]
+    h = "".join("%s: %s\r\n" % kv for kv in [("Host", host)] + hs)
     return ("%s %s HTTP/1.1\r\n%s\r\n" % (method, path, h)).encode("utf-8")
 
 
